@@ -323,12 +323,13 @@ contract(A + "preserve_context", props=["C06"], types={"f": "role:UserCode"}, re
 specfun("pos_unchanged", [], "only_changed('_last_child')")
 
 contract(A + "preserve_context.restore_eliot_context", props=["C06"], types={"args": "tuple", "kwargs": "dict"}, returns="Any",
-         free={"f": "role:UserCode", "called": "Lock", "task_id": "bytes", "U": "str", "L": "seq"},
+         free={"f": "role:UserCode", "called": "Lock", "task_id": "bytes", "U": "str", "L": "seq", "action": "Action"},
          ghost_args={"Action.continue_task#0": {"U": "U", "L": "L"}},
          call_tokens={"UserCode.__call__#0": "held(called)"},
-         ghosts={"RAN": "bool", "RET": "Any", "CARGS": "seq", "CKW": "Any"}, ghost_defaults={"RAN": "False"},
-         after={"UserCode.__call__#0": [("RAN", "True"), ("RET", "box(result)"), ("CARGS", "old(LASTARGS)"), ("CKW", "old(LASTKW)")]},
-         after_raise={"UserCode.__call__#0": [("RAN", "True")]},
+         ghosts={"RAN": "bool", "RET": "Any", "CARGS": "seq", "CKW": "Any", "INSIDE": "Any", "CONT": "Any"}, ghost_defaults={"RAN": "False", "INSIDE": "None", "CONT": "None"},
+         after={"UserCode.__call__#0": [("RAN", "True"), ("RET", "box(result)"), ("CARGS", "old(LASTARGS)"), ("CKW", "old(LASTKW)"), ("INSIDE", "old(CTX[me])")],
+                "Action.continue_task#0": [("CONT", "box(result)")]},
+         after_raise={"UserCode.__call__#0": [("RAN", "True"), ("INSIDE", "old(CTX[me])")]},
          assumes=[("string library axioms, instance for U, L", "codec_facts(U, L)")],
          requires=[("current-ok", "cur_ok()"),
                    ("the-id-came-from-serialize_task_id", "all_nat(L) and not str_contains(U, '@') and ascii_ok(U) and task_id == bytes_of(U + '@' + levelstr(L))"),
@@ -337,13 +338,16 @@ contract(A + "preserve_context.restore_eliot_context", props=["C06"], types={"ar
          ensures=[("first-caller-runs-the-function-once-and-passes-its-result-through",
                    "not old(is_locked(called)) and RAN and box(result) == RET", ["C06"]),
                   ("the-callable-stays-used-up", "is_locked(called)", ["C06"]),
+                  ("the-function-runs-inside-the-action-that-continues-the-task-at-the-reserved-position (never directly in the originating action)",
+                   "CONT is not None and INSIDE == CONT", ["C06", "C01"]),
                   ("the-function-gets-the-very-same-arguments", "CARGS == old(seq(args)) and CKW == old(dict_of(kwargs))", ["C06"]),
                   ("context-restored", "CTX[me] == old(CTX[me])", ["C04", "C05"])],
          raises=[{"cls": "TooManyCalls", "when": "old(is_locked(called))", "iff": True,
                   "ensures": [("every-other-call-raises-TooManyCalls-without-running-the-function", "NTOP[f] == old(NTOP[f]) and LOG == old(LOG)", ["C06"])]},
                  {"cls": "BaseException", "ensures": [("the-function's-own-exception-passes-through", "not old(is_locked(called)) and CTX[me] == old(CTX[me])", ["C06"]),
                               ("nothing-else-raises: the function was called", "RAN", ["C06"]),
-                              ("the-callable-stays-used-up-also-after-a-failing-call (at most once, whatever the outcome)", "is_locked(called)", ["C06"])]}])
+                              ("the-callable-stays-used-up-also-after-a-failing-call (at most once, whatever the outcome)", "is_locked(called)", ["C06"]),
+                              ("a-failing-function-also-ran-inside-the-continuing-action", "implies(RAN, CONT is not None and INSIDE == CONT)", ["C06", "C01"])]}])
 specfun("is_locked", ["l"], "typed(l.locked_flag, 'bool')")
 specfun("last_user_call_returned", ["f", "r"], "True")
 
